@@ -67,6 +67,9 @@ pub struct GenCfg {
     pub own_topic_alias_max: Option<u16>,
     /// Executor honours only the waker of the most recent poll (see Config).
     pub strict_wakers: bool,
+    /// The first CONNACK says Session Present = 1 (the server kept a session of this client
+    /// identifier from an earlier life; clean start is never requested by these profiles).
+    pub session_present_first: bool,
 }
 
 impl GenCfg {
@@ -129,6 +132,7 @@ impl GenCfg {
             own_receive_max: None,
             own_max_packet: None,
             own_topic_alias_max: None,
+            session_present_first: false,
             strict_wakers: false,
         }
     }
@@ -303,7 +307,8 @@ impl<'a> Gen<'a> {
         }
         let props = self.connack_props();
         let chunks = self.chunks(8);
-        self.push(Step::Broker { pkt: BrokerPkt::Connack { session_present: false, reason: 0, props }, chunks, hold: false });
+        let session_present = self.cfg.session_present_first;
+        self.push(Step::Broker { pkt: BrokerPkt::Connack { session_present, reason: 0, props }, chunks, hold: false });
         self.settle();
     }
 
